@@ -43,7 +43,7 @@ pub struct Case {
 }
 
 /// names relative to the directory; initial state see `initial()`
-const TARGETS: [&str; 11] = ["short.bin", "long.bin", "missing.bin", "sub/inner.bin", "sub/missing.bin", "empty.bin", "other.bin", "/short.bin", "short.bin/child.bin", "LONGNAME", "sub/LONGNAME"];
+const TARGETS: [&str; 14] = ["short.bin", "long.bin", "missing.bin", "sub/inner.bin", "sub/missing.bin", "empty.bin", "other.bin", "/short.bin", "short.bin/child.bin", "LONGNAME", "sub/LONGNAME", "sub\\inner.bin", "\\long.bin", "sub\\missing.bin"];
 
 /// missing names whose lookup fails in unusual ways (below a regular file; a component longer than 255 bytes): read requests only
 fn odd_target(t: &str) -> bool {
@@ -60,7 +60,8 @@ fn initial(seed: u64) -> BTreeMap<String, Vec<u8>> {
 }
 
 fn norm(t: &str) -> String {
-    t.trim_start_matches('/').to_string()
+    // the server treats '\\' and '/' alike (convert_file_path) and drops leading separators
+    t.trim_start_matches(|c| c == '/' || c == '\\').replace('\\', "/")
 }
 
 fn tree_of(dir: &Path) -> BTreeMap<String, Vec<u8>> {
@@ -310,7 +311,7 @@ fn opts() -> BoxedStrategy<Vec<(String, String)>> {
 }
 
 pub fn strategy() -> BoxedStrategy<Case> {
-    let step = (any::<bool>(), 0u8..11, opts(), prop::sample::select(vec![0usize, 1, 40, 100, 512, 600, 2000, 3500]), prop_oneof![9 => Just(None), 1 => (0usize..3).prop_map(Some)], prop_oneof![3 => Just(None), 1 => (0u8..6).prop_map(Some)], prop_oneof![5 => Just(None), 1 => any::<u16>().prop_map(Some)]).prop_map(|(write, target, opts, upload_len, abort_after, bad_opt, replaced_len)| {
+    let step = (any::<bool>(), 0u8..14, opts(), prop::sample::select(vec![0usize, 1, 40, 100, 512, 600, 2000, 3500]), prop_oneof![9 => Just(None), 1 => (0usize..3).prop_map(Some)], prop_oneof![3 => Just(None), 1 => (0u8..6).prop_map(Some)], prop_oneof![5 => Just(None), 1 => any::<u16>().prop_map(Some)]).prop_map(|(write, target, opts, upload_len, abort_after, bad_opt, replaced_len)| {
         // small blksize with a long upload would need hundreds of round trips
         let upload_len = if opts.iter().any(|(n, v)| n == "blksize" && v == "8") { upload_len.min(100) } else { upload_len };
         let opts: Vec<(String, String)> = opts.into_iter().map(|(n, v)| if v == "LEN" { (n, if write { upload_len.to_string() } else { "0".to_string() }) } else { (n, v) }).collect();
@@ -335,7 +336,7 @@ fn decision_table() -> Vec<Case> {
     for bits in 0u8..32 {
         let (read_only, overwrite, keep, single, distinct) = (bits & 1 != 0, bits & 2 != 0, bits & 4 != 0, bits & 8 != 0, bits & 16 != 0);
         for write in [false, true] {
-            for target in 0u8..11 {
+            for target in 0u8..14 {
                 // plain, and (where the request must be refused) with an option value the server cannot honour
                 for bad_opt in [None, Some((bits + target) % 6)] {
                     out.push(Case {
@@ -356,7 +357,7 @@ fn decision_table() -> Vec<Case> {
 }
 
 pub fn run(ctx: &Ctx) {
-    ctx.set_rule("exhaustive: the whole decision table once (32 configurations x RRQ/WRQ x 11 targets x {plain, with an unhonourable option value}, one request per fresh server); model-based random: per case a fresh real tftpd with a generated configuration {read-only, overwrite, keep-on-error, single/multi port, shared/distinct directories} and a history of 1-11 requests, each RRQ or WRQ of a target in {existing short, existing long, missing, in subdirectory existing/missing, existing zero-length, leading-slash spelling} with one of 7 option sets, and - where the request must be refused - in a quarter of the steps additionally an option value the server cannot honour (blksize 7/65465, timeout 0/256, windowsize 0/65536: the refusal must come all the same); uploads of 0..3500 bytes are completed (10% are aborted by a client ERROR); before one read request in six the served file is replaced on disk, and an acknowledged tsize must be the size the file has at that moment. A reference decision table predicts refusal (ERROR 2 read-only / ERROR 6 exists without overwrite / ERROR 1 not found - from the listening port, followed by nothing) or acceptance; a model filesystem is updated and compared with the real send and receive trees (every file, every byte) after every step, so a refused request that changes anything, an overwrite that leaves old bytes behind, or a wrong download is caught at the step where it happens. Non-trivial = the history contains a refusal and a completed transfer; distinct = distinct cases.");
+    ctx.set_rule("exhaustive: the whole decision table once (32 configurations x RRQ/WRQ x 14 targets x {plain, with an unhonourable option value}, one request per fresh server); model-based random: per case a fresh real tftpd with a generated configuration {read-only, overwrite, keep-on-error, single/multi port, shared/distinct directories} and a history of 1-11 requests, each RRQ or WRQ of a target in {existing short, existing long, missing, in subdirectory existing/missing, existing zero-length, leading-slash spelling, backslash spellings of an existing / a missing name in the subdirectory and of an existing name with a leading backslash} with one of 7 option sets, and - where the request must be refused - in a quarter of the steps additionally an option value the server cannot honour (blksize 7/65465, timeout 0/256, windowsize 0/65536: the refusal must come all the same); uploads of 0..3500 bytes are completed (10% are aborted by a client ERROR); before one read request in six the served file is replaced on disk, and an acknowledged tsize must be the size the file has at that moment. A reference decision table predicts refusal (ERROR 2 read-only / ERROR 6 exists without overwrite / ERROR 1 not found - from the listening port, followed by nothing) or acceptance; a model filesystem is updated and compared with the real send and receive trees (every file, every byte) after every step, so a refused request that changes anything, an overwrite that leaves old bytes behind, or a wrong download is caught at the step where it happens. Non-trivial = the history contains a refusal and a completed transfer; distinct = distinct cases.");
     let dirs = DirPool::new(ctx, "c06");
     let table = decision_table();
     enumerate(ctx, "exh-decision-table", &table, true, |c, o| dirs.with(|d| judge(d, c, o)));
